@@ -7,7 +7,8 @@
   Proved here (all sizes, all inputs):
   * loop structure, with EVERY floating comparison an arbitrary boolean (any `Sc` instance, DESIGN §3.2):
     `c09_trideig_exit`, `c09_iteration_cap`, `c09_trideig_fuel`, `c09_schur_iteration_cap`, `c09_schur_exit`, `c09_schur_quasi_triangular`, `c09_hesseig_throw_iff`;
-  * exact-arithmetic (ordered field) content of the pairing convention: `c09_conj_exact`, `c09_conj_degenerate`, `c09_conj_scale`, `c09_conj_compute`,
+  * exact-arithmetic (ordered field) content of the pairing convention: `c09_conj_exact` (full strength: z > 0 for unsplit blocks), `c09_conj_blocks`, `c09_conj_unsplit_pos`, `c09_conj_kinds`,
+    `c09_backsub_branch`, `c09_conj_scale`, `c09_conj_compute`, `c09_hesseig_zero`,
     `c09_cdiv_spec` (the `__divdc3` port is complex division), `c09_eigvec_unit` (normalisation is exact);
   * whole-run exact-arithmetic statement: `c09_trideig_orth` (ZᵀZ = I for ideal rotations, with `c09_givens_unit`),
     `c09_schur_orth` (UᵀU = I for ideal reflectors and rotations, with `c09_householder_ideal`);
@@ -154,51 +155,90 @@ theorem c09_schur_quasi_triangular (n : Nat) (h : Mat α) (hw : C09Mat.WF h) (hr
      (∀ i, 0 < i → i + 1 < n → r.t.get i (i - 1) = (zero : α) ∨ r.t.get (i + 1) i = (zero : α))) :=
   C09Hess.compute_quasi n h hw hr hc hH r hok
 
-/-- `UpperHessenbergEigen::compute` throws exactly when its Schur step throws (it adds no other non-normal exit). -/
+/-- `UpperHessenbergEigen::compute` throws exactly when the input is not the zero matrix (`scale != 0`) and its Schur step throws
+    (it adds no other non-normal exit). -/
 theorem c09_hesseig_throw_iff (n : Nat) (h : Mat α) :
     (∃ msg, HessEigen.compute n h = Res.throw msg) ↔
-    (∃ msg, HessSchur.compute n ⟨h.rows, h.cols, vdivs h.d (TridiagEigen.maxAbs1 h.d)⟩ = Res.throw msg) := by
+    (Sc.eq (TridiagEigen.maxAbs1 h.d) (zero : α) = false ∧
+     ∃ msg, HessSchur.compute n ⟨h.rows, h.cols, vdivs h.d (TridiagEigen.maxAbs1 h.d)⟩ = Res.throw msg) := by
   simp only [HessEigen.compute]
-  constructor
-  · rintro ⟨m, hm⟩; split at hm
-    · exact ⟨_, by assumption⟩
-    · cases hm
-  · rintro ⟨m, hm⟩; rw [hm]; exact ⟨_, rfl⟩
+  by_cases hz : Sc.eq (TridiagEigen.maxAbs1 h.d) (zero : α) = true
+  · rw [if_pos hz]
+    constructor
+    · rintro ⟨m, hm⟩; cases hm
+    · rintro ⟨hf, _⟩; rw [hz] at hf; cases hf
+  · rw [if_neg hz]
+    constructor
+    · rintro ⟨m, hm⟩
+      refine ⟨by simpa using hz, ?_⟩
+      split at hm
+      · exact ⟨_, by assumption⟩
+      · cases hm
+    · rintro ⟨_, m, hm⟩; rw [hm]; exact ⟨_, rfl⟩
+
+/-- **zero matrix (repair of F15)**: when `scale = max|a_ij|` tests `== 0`, `UpperHessenbergEigen::compute` returns normally with
+    all eigenvalues `(0, 0)` and the identity as eigenvector storage — no division by `scale`, no Schur step (the unrepaired code
+    divided by 0: `runtime_error` for `n ≥ 3`, NaN results for `n ≤ 2`). -/
+theorem c09_hesseig_zero (n : Nat) (h : Mat α) (hz : Sc.eq (TridiagEigen.maxAbs1 h.d) (zero : α) = true) :
+    HessEigen.compute n h = Res.ok ⟨n, Array.replicate n (zero, zero), Mat.identity n⟩ := by
+  simp only [HessEigen.compute, if_pos hz]
 
 end loops
 
 section conj
 variable {K : Type} [Field K] [LinearOrder K] [IsStrictOrderedRing K] (F : FieldFns K)
 
-/-- **Exact pairing convention of the eigenvalue extraction** (UpperHessenbergEigen.h:233-261), exact arithmetic over any ordered
-    field, `sqrt` any function with non-negative values: from every start position the emitted list is a concatenation of
-    blocks `[(t, 0)]` (1x1 block: imaginary part exactly 0) and `[(x, z), (x, −z)]` with `z ≥ 0` (2x2 block: adjacent exact
-    conjugates, non-negative imaginary part first).
-    Full-strength clause "positive imaginary part first" needs `z > 0`; that is NOT a consequence of the code: `z = 0` happens
-    when the scaled discriminant `p0² + t0 t1` of an unsplit block is exactly 0, and then the block is reported as two equal
-    real values while the Schur factor keeps its 2x2 block (finding F20, known_findings/C09.json). -/
-theorem c09_conj_exact (hs : ∀ x : K, 0 ≤ F.sqrt x) (n : Nat) (t : Mat K) (fuel i : Nat) :
-    ConjBlocks (@HessEigen.extract K _ _ _ _ _ (scOfField F) n t fuel i) := extract_conj F hs n t fuel i
+/-- **Exact pairing convention of the eigenvalue extraction, full strength** (UpperHessenbergEigen.h, after the repair of F20), exact
+    arithmetic over any ordered field, `eps > 0`, `sqrt` ANY function: walking the block structure of `T` from row `i`, a row
+    whose sub-diagonal entry below it is `0` (or the last row) emits `(T(i,i), 0)` — imaginary part exactly 0 — and a 2x2 block
+    left UNSPLIT (`T(i+1,i) ≠ 0`) emits `(x, z)` then `(x, −z)` with `z > 0`: adjacent exact conjugates, STRICTLY positive
+    imaginary part first.  Before the repair only `z ≥ 0` held and `z = 0` (scaled discriminant exactly 0) made both values look
+    real while `T` kept its 2x2 block (finding F20). -/
+theorem c09_conj_exact (heps : 0 < F.eps) (n : Nat) (t : Mat K) (fuel i : Nat) (hf : n ≤ i + fuel) :
+    ConjBlocksAt F n t i (@HessEigen.extract K _ _ _ _ _ (scOfField F) n t fuel i) := extract_conjAt F heps n t fuel i hf
 
-/-- **when exactly the pairing convention degenerates** (the hole behind finding F20): for an unsplit block (`T(i+1,i) = c ≠ 0`) the
-    extracted imaginary part `z` is `0` if and only if the SCALED discriminant `p0² + t0·t1` computed in `compute()` is `0`
-    (`sqrt x = 0 ↔ x = 0`).  `UpperHessenbergSchur::split_off_two_rows` decides "complex pair" with the UNSCALED `p² + bc < 0`; in
-    floating point the two can disagree, and then both values are reported real while `T` keeps its 2x2 block. -/
-theorem c09_conj_degenerate (hsz : ∀ x : K, F.sqrt x = 0 ↔ x = 0) (a b c d : K) (hc : c ≠ 0) :
+/-- the same without the structure: the list is a concatenation of `[(t, 0)]` and `[(x, z), (x, −z)]`, `z > 0`, for any fuel -/
+theorem c09_conj_blocks (heps : 0 < F.eps) (n : Nat) (t : Mat K) (fuel i : Nat) :
+    ConjBlocks (@HessEigen.extract K _ _ _ _ _ (scOfField F) n t fuel i) := extract_conj F heps n t fuel i
+
+/-- **an unsplit block always yields a strictly positive imaginary part** (replaces `c09_conj_degenerate`): for `T(i+1,i) = c ≠ 0`
+    and `eps > 0` the value `z` emitted by the repaired `compute()` is `> 0`, whatever the (scaled) discriminant and whatever
+    `sqrt` returns: the guard `if (!(z > 0)) z = maxval * eps` decides, and `maxval ≥ |c| > 0`. -/
+theorem c09_conj_unsplit_pos (heps : 0 < F.eps) (a b c d : K) (hc : c ≠ 0) :
+    ∃ x z : K, 0 < z ∧ @HessEigen.block2 K _ _ _ _ _ (scOfField F) a b c d = ((x, z), (x, -z)) := block2_pos F heps a b c d hc
+
+/-- **row kinds**: the sign of the emitted imaginary part is determined by the block structure of `T` alone — `= 0` exactly on the
+    rows of 1x1 blocks, `> 0` on the first and `< 0` on the second row of every unsplit 2x2 block (`kinds` walks `T` only). -/
+theorem c09_conj_kinds (heps : 0 < F.eps) (n : Nat) (t : Mat K) (fuel i : Nat) :
+    List.Forall₂ kindSign (kinds F n t fuel i) (@HessEigen.extract K _ _ _ _ _ (scOfField F) n t fuel i) :=
+  extract_kinds F heps n t fuel i
+
+/-- **the back-substitution takes the complex branch for exactly the unsplit blocks**: at row `n` the loop of
+    `doComputeEigenvectors` takes the real-eigenvalue branch iff the emitted imaginary part is `0`, the complex-pair branch
+    (columns `n−1, n`) iff it is `< 0` (and `n > 0`), and skips the row iff it is `> 0`; by `c09_conj_kinds` these are exactly
+    the rows of 1x1 blocks, the second rows and the first rows of the unsplit blocks. -/
+theorem c09_backsub_branch (size : Nat) (norm : K) (ev : Vec (K × K)) (f n : Nat) (t : Mat K) :
     let _ : Sc K := scOfField F
-    let p : K := TridiagEigen.half * (a - b)
-    let m := HessEigen.smax (|p|) (HessEigen.smax (|c|) (|d|))
-    (HessEigen.block2 a b c d).1.2 = 0 ↔ (p / m) * (p / m) + (c / m) * (d / m) = 0 := block2_zero_iff F hsz a b c d hc
+    ((HessEigen.evGet ev n).2 = 0 →
+      HessEigen.backSub size norm ev (f + 1) (n + 1) t =
+        HessEigen.backSub size norm ev f n
+          (HessEigen.realInner size n (HessEigen.evGet ev n).1 norm ev n ⟨zero, zero, n, t.set n n one⟩).t) ∧
+    ((HessEigen.evGet ev n).2 < 0 → 0 < n → ∃ t', HessEigen.backSub size norm ev (f + 1) (n + 1) t =
+        HessEigen.backSub size norm ev f (n - 1)
+          (HessEigen.cplxInner size n (HessEigen.evGet ev n).1 (HessEigen.evGet ev n).2 norm ev (n - 1) ⟨zero, zero, zero, n - 1, t'⟩).t) ∧
+    (0 < (HessEigen.evGet ev n).2 → HessEigen.backSub size norm ev (f + 1) (n + 1) t = HessEigen.backSub size norm ev f n t) :=
+  backSub_dispatch F size norm ev f n t
 
-/-- scaling back by a non-negative real (`m_eivalues *= scale`, performed as `complex * complex(scale, 0)`) keeps the exact
-    zero and exact conjugacy -/
-theorem c09_conj_scale (s : K) (hs : 0 ≤ s) (l : List (K × K)) (h : ConjBlocks l) :
+/-- scaling back by a positive real (`m_eivalues *= scale`, performed as `complex * complex(scale, 0)`) keeps the exact zero,
+    exact conjugacy and strict positivity — what `GenEigsBase::is_complex` / `is_conj` and the restart shift loop rely on -/
+theorem c09_conj_scale (s : K) (hs : 0 < s) (l : List (K × K)) (h : ConjBlocks l) :
     ConjBlocks (l.map (fun z => @HessEigen.cmulReal K _ _ _ (scOfField F) z s)) := conj_scale F s hs l h
 
-/-- hence the eigenvalues returned by the model of `UpperHessenbergEigen::compute` have the block shape, for every input -/
-theorem c09_conj_compute (hs : ∀ x : K, 0 ≤ F.sqrt x) (n : Nat) (h : Mat K) (r : HessEigen.Decomp K)
+/-- hence the eigenvalues returned by the model of `UpperHessenbergEigen::compute` have the block shape with `z > 0`, for every
+    input including the zero matrix (all `(0, 0)`) -/
+theorem c09_conj_compute (heps : 0 < F.eps) (n : Nat) (h : Mat K) (r : HessEigen.Decomp K)
     (hr : @HessEigen.compute K _ _ _ _ _ (scOfField F) n h = Res.ok r) : ConjBlocks r.evals.toList :=
-  compute_conj F hs n h r hr
+  compute_conj F heps n h r hr
 
 /-- the hypotheses are satisfiable and the shape is not vacuous: a 1x1 block then a 2x2 block -/
 example : ConjBlocks [((3 : ℚ), 0), (1, 2), (1, -2)] :=
